@@ -13,7 +13,7 @@ Mirror of the TCP signature extractor of huginn-net-tcp *as it is* (including it
 * `signature_matcher.rs` `matching_by_mtu`
 
 All numbers are `Nat`; the Rust widths are recorded in `Fields.WF`. `x - y` on `Nat` is
-`saturating_sub`; `saturating_add` on `u16` is `satAdd16`. Byte strings are `List Nat` (each `< 256`).
+`saturating_sub`; `saturating_add` on `u16` is `satAdd16`, `checked_add` is `chkAdd16`. Byte strings are `List Nat` (each `< 256`).
 
 Third party (pnet 0.35.0), modelled at its interface from the `#[packet]` macro templates and the
 `length_fn`s in `pnet_packet/src/{ipv4,ipv6,tcp}.rs`, exercised by the harness, not proved:
@@ -98,6 +98,8 @@ def calculateTtl (t : Nat) : Ttl :=
 /-! ### window_size.rs -/
 
 def satAdd16 (a b : Nat) : Nat := min (a + b) 65535
+/-- `u16::checked_add` as the list of divisors it lets through -/
+def chkAdd16 (a b : Nat) : List Nat := if a + b ≤ 65535 then [a + b] else []
 
 /-- `check_mss_div!` / `check_mtu_div!`: `Some(multiplier)` when the macro returns. -/
 def checkDiv (w d : Nat) : Option Nat :=
@@ -123,10 +125,10 @@ def mtuDivs (mss hdr : Nat) (ts : Bool) (ver : IpVersion) : List Nat :=
    | .v6 => [TcpConst.ethMtu - TcpConst.minTcp6] ++ (if ts then [TcpConst.ethMtu - TcpConst.minTcp6 - TcpConst.tsSize] else [])
    | .any => []) ++
   (if mss > 0 then
-    (if hdr > 0 then [satAdd16 mss hdr]
+    (if hdr > 0 then chkAdd16 mss hdr
      else match ver with
-      | .v4 => [satAdd16 mss TcpConst.minTcp4]
-      | .v6 => [satAdd16 mss TcpConst.minTcp6]
+      | .v4 => chkAdd16 mss TcpConst.minTcp4
+      | .v6 => chkAdd16 mss TcpConst.minTcp6
       | .any => [])
    else [])
 
@@ -291,9 +293,10 @@ def ipQuirksV6 (ip : IpHdr) : List Quirk :=
   (if ip.flow ≠ 0 then [.flowID] else []) ++
   (if ip.ecn &&& (TcpConst.ipTosCe ||| TcpConst.ipTosEct) ≠ 0 then [.ecn] else [])
 
-def tcpQuirks (t : TcpHdr) : List Quirk :=
+/-- the TCP-level quirks pushed by `visit_tcp`, given the IP-level ones `q0` already in the list -/
+def tcpQuirks (q0 : List Quirk) (t : TcpHdr) : List Quirk :=
   let fl := t.flags
-  (if fl &&& (ECE ||| CWR) ≠ 0 then [.ecn] else []) ++
+  (if fl &&& (ECE ||| CWR) ≠ 0 ∧ ¬ q0.contains .ecn then [.ecn] else []) ++
   (if t.seq = 0 then [.seqNumZero] else []) ++
   (if fl &&& ACK = ACK then (if t.ack = 0 then [.ackNumZero] else [])
    else if t.ack ≠ 0 ∧ fl &&& RST = 0 then [.ackNumNonZero] else []) ++
@@ -325,12 +328,12 @@ def visitTcp (t : TcpHdr) (ver : IpVersion) (ittl : Ttl) (ipHdrLen olen : Nat) (
   let ty := tcpType fl
   if !isValid fl ty then .error .flags
   else
-    let st := walk ty t.opts { quirks := q0 ++ tcpQuirks t }
+    let st := walk ty t.opts { quirks := q0 ++ tcpQuirks q0 t }
     let mtu : Option Nat := match st.mss, ver with
       | some m, .v4 => extractMtu4 fl ipHdrLen t.doff m
       | some m, .v6 => extractMtu6 fl ipHdrLen t.doff m
       | _, _ => none
-    let wsize := detectWin t.window (st.mss.getD 0) ipHdrLen (st.olayout.contains .ts) ver
+    let wsize := detectWin t.window (st.mss.getD 0) 0 (st.olayout.contains .ts) ver
     let sig : TcpSig :=
       { version := ver, ittl := ittl, olen := olen, mss := st.mss, wsize := wsize, wscale := st.wscale,
         olayout := st.olayout, quirks := st.quirks,
